@@ -395,6 +395,8 @@ def main(argv: list[str] | None = None) -> int:
     ap.add_argument("--no-shrink", action="store_true")
     ap.add_argument("--scale", type=float, default=float(os.environ.get("VERIF_SCALE", "1")))
     args = ap.parse_args(argv)
+    if args.replay:
+        args.replay = os.path.abspath(args.replay)
     pid = args.property.upper()
     seed = args.seed if args.seed is not None else int(os.environ.get("VERIF_SEED", "1") or "1")
     tier = args.tier
